@@ -698,6 +698,10 @@ TRANSPARENT = [
     ("re:Index(Mut)?<.*>>::index(_mut)?$", (0,)),
     ("re:^core::slice::index::.*index(_mut)?$", (0,)),
     ("re:^alloc::vec::Vec::(as_slice|as_mut_slice)$", (0,)),
+    # lock guards derive from the lock they guard
+    ("re:^lock_api::mutex::Mutex::(lock|try_lock)$", (0,)),
+    ("re:^lock_api::rwlock::RwLock::(read|write|upgradable_read)$", (0,)),
+    ("re:^std::sync::(poison::)?(mutex::Mutex|rwlock::RwLock)::(lock|read|write)$", (0,)),
 ]
 
 
